@@ -33,7 +33,7 @@ TRUST = [
     "the log of files parsed is observed by wrapping NeuroMLLoader.load / NeuroMLHdf5Loader.load in the harness",
 ]
 ASSUMPTIONS = [
-    "today's code (HDF5 parser keeps an include list of its own): theorems take H5Leaf (an included HDF5 file has no includes of its own); without it they fail (witness theorems, known findings C06:cycle-through-hdf5, C06:twice-through-hdf5). With fixes/C06-hdf5-shared-include-list.patch applied the same theorems hold without H5Leaf (sh = true); the harness detects which variant the tree under test is and uses the matching model",
+    "the un-repaired code (HDF5 parser keeps an include list of its own, before 738393e): theorems take H5Leaf (an included HDF5 file has no includes of its own); without it they fail (witness theorems, known findings C06:cycle-through-hdf5, C06:twice-through-hdf5). With fixes/C06-hdf5-shared-include-list.patch applied (today's /repo, commit 738393e) the same theorems hold without H5Leaf (sh = true); the harness detects which variant the tree under test is and uses the matching model",
     "files do not change while being read; no symlinks (file identity = os.path.abspath)",
     "a member list never mixes classes with and without an id attribute (true of everything the parser builds)",
 ]
